@@ -30,7 +30,7 @@ fn parse_batch(s: &str) -> BatchRequestConfig {
 	}
 }
 
-const METHODS: [&str; 12] = ["echo", "a_echo", "blk_echo", "sum", "a_sum", "fail", "str", "esc", "blk_boom", "sub", "unsub", "rpc.e"];
+const METHODS: [&str; 13] = ["echo", "a_echo", "blk_echo", "sum", "a_sum", "fail", "str", "esc", "blk_boom", "sub", "unsub", "rpc.e", "badser"];
 
 /// plain-JSON reading of a message for the oracle (independent of jsonrpsee's own types)
 #[derive(Debug)]
